@@ -140,6 +140,7 @@ def _shard_entry(args):
     check_id, tier, shard, nshards, base_seed, extra = args
     os.environ.setdefault("PYTHONHASHSEED", "0")
     _env.quiet()
+    _env.assert_tree()
     stats = ShardStats()
     try:
         from . import checks
@@ -157,7 +158,9 @@ def run_sharded(check_id, tier, nshards, base_seed, extra=None) -> ShardStats:
     if nshards == 1:
         total.merge(_shard_entry(args[0]))
         return total
-    ctx = mp.get_context("fork")
+    # spawn, not fork: the parent has already executed Polars (replay tier) and a forked child
+    # would inherit its thread pool in a locked state
+    ctx = mp.get_context("spawn")
     with ctx.Pool(min(nshards, os.cpu_count() or 1)) as pool:
         for st in pool.imap_unordered(_shard_entry, args):
             total.merge(st)
